@@ -163,6 +163,11 @@ func skipUnknownField(b []byte, tp ttype) (n int, err error) {
 	return n, err
 }
 
+// isBinary reports whether the Go value behind t is a []byte (directly, or through an optional pointer).
+func isBinary(t *tType) bool {
+	return t.Tag == defs.T_binary || (t.IsPointer && t.V.Tag == defs.T_binary)
+}
+
 func decodeFixedSizeTypes(t ttype, b []byte, p unsafe.Pointer) int {
 	switch t {
 	case tBOOL, tBYTE:
@@ -214,7 +219,7 @@ func decodeStringNoCopy(t *tType, b []byte, p unsafe.Pointer) (i int, err error)
 	}
 	i += 4
 	if l == 0 {
-		if t.Tag == defs.T_binary {
+		if isBinary(t) {
 			*(*[]byte)(p) = []byte{}
 		} else {
 			*(*string)(p) = ""
@@ -226,7 +231,7 @@ func decodeStringNoCopy(t *tType, b []byte, p unsafe.Pointer) (i int, err error)
 		return i, newSizeExceedsBufferException(l, len(b)-i)
 	}
 
-	if t.Tag == defs.T_binary {
+	if isBinary(t) {
 		*(*[]byte)(p) = unsafe.Slice(&b[i], l)
 	} else {
 		*(*string)(p) = unsafe.String(&b[i], l)
@@ -256,7 +261,7 @@ func (d *tDecoder) decodeType(t *tType, b []byte, p unsafe.Pointer, maxdepth int
 		}
 		i := 4
 		if l == 0 {
-			if t.Tag == defs.T_binary {
+			if isBinary(t) {
 				*(*[]byte)(p) = []byte{}
 			} else {
 				*(*string)(p) = ""
@@ -269,7 +274,7 @@ func (d *tDecoder) decodeType(t *tType, b []byte, p unsafe.Pointer, maxdepth int
 		}
 
 		x := d.Malloc(l, 1, 0)
-		if t.Tag == defs.T_binary {
+		if isBinary(t) {
 			*(*[]byte)(p) = unsafe.Slice((*byte)(x), l)
 		} else {
 			*(*string)(p) = unsafe.String((*byte)(x), l)
